@@ -630,7 +630,8 @@ Definition R_UIDL : reason := 5.         (* UIDL ids are not the store's ids of 
 Definition R_RETR : reason := 6.         (* RETR/TOP body is not the stored message *)
 Definition R_STORE : reason := 7.        (* final store differs from what the dialogue entitles *)
 Definition R_COUNT : reason := 8.        (* a command line got no reply / too many replies *)
-Definition R_FRAME : reason := 9.        (* multi-line reply not terminated although the message exists *)
+Definition R_FRAME : reason := 9.
+Definition R_LOGIN : reason := 10.       (* the message count announced at login is not the mailbox's *)        (* multi-line reply not terminated although the message exists *)
 
 Definition chk (b : bool) (r : reason) : option reason := if b then None else Some r.
 
@@ -656,8 +657,9 @@ Definition spec_step (fl : flavour) (st : store) (sp : spec_state) (c : cmd) (r 
       | Closed => (Some R_COUNT, sp, st)
       | Auth =>
           let enter u :=
-            (chk (r_ok r && is_single r &&
-                  reply_eqb_nums r [Z.of_nat (length (mmsgs (get_box st u)))]) R_STATUS,
+            ((if r_ok r && is_single r
+              then chk (reply_eqb_nums r [Z.of_nat (length (mmsgs (get_box st u)))]) R_LOGIN
+              else Some R_STATUS),
              {| sp_phase := Trans; sp_user := u; sp_pending_user := u;
                 sp_snap := mmsgs (get_box st u); sp_marked := [] |}, st) in
           match n, args with
